@@ -495,9 +495,6 @@ class ObjectType(Type):
 
         self.__initialize__()
 
-        if value is None:
-            return None
-
         if not isinstance(value, Config):
             raise ValueError(f"{value} is not an experimaestro type or task")
 
